@@ -374,6 +374,8 @@ def run_k1(rep: Report, tier: str) -> None:
 def main(args: Any) -> int:
     rep = Report(PID, args.tier, "clang -O1 LLVM IR of the real lib-rt C sources translated to SMT (bit-vector domain; integer domain with axiomatised truncating division for multiply/divide kernels); all 64-bit operand words; z3")
     only = set(args.only.split(",")) if args.only else None
+    import mypy.build  # noqa: F401  (import order: avoids the types/expandtype cycle)
+
     rep.bounds += [
         "K1: loop-free C fast paths at full 64-bit width (all 2^128 operand pairs per binary kernel); clang -O1 IR of /repo/mypyc/lib-rt regenerated on every run",
     ]
